@@ -7,6 +7,8 @@ Exit-code contract (DESIGN section 10): 0 = the property held on everything expl
 import json, os, re, subprocess, sys, time, hashlib, shutil
 
 ROOT = os.path.dirname(os.path.abspath(__file__))
+# the tree under test: /repo, or the private copy tools/mutant_sandbox.sh made next to a private copy of /verif
+REPO = os.environ.get("XV_REPO", "/repo")
 SPEC = os.path.join(ROOT, "spec")
 HARNESS = os.path.join(ROOT, "harness")
 WORK = os.path.join(ROOT, "work")
@@ -193,6 +195,9 @@ class Report:
 
     def __init__(self, pid, tier, seed, level):
         self.pid, self.tier, self.seed, self.level = pid, tier, seed, level
+        # checks named X.. cover behaviour outside the 18 listed properties (DESIGN 13.8): same machinery, their
+        # evidence is kept apart and they are not registered in MANIFEST.json
+        self.extra = pid.startswith("X")
         self.t0 = time.time()
         self.violations = []   # dict(sig, what, case)
         self.drift = []
@@ -254,7 +259,9 @@ class Report:
         ev = {"property_id": self.pid, "tier": self.tier, "seed": self.seed, "level": self.level,
               "coverage": cov, "assumptions": self.assumptions, "wall_s": round(time.time() - self.t0, 2),
               "violations": len(fresh)}
-        with open(os.path.join(EVIDENCE, f"{self.pid}.json"), "w") as f:
+        evdir = os.path.join(EVIDENCE, "extra") if self.extra else EVIDENCE
+        os.makedirs(evdir, exist_ok=True)
+        with open(os.path.join(evdir, f"{self.pid}.json"), "w") as f:
             json.dump(ev, f, indent=1)
         if fresh:
             return 1
